@@ -52,6 +52,7 @@ EDITS = (
     "sort-unsupported-equal-to-existing",
     "sel-reuses-join-predicate",
     "sel-reuses-join-predicate",
+    "custom-op-missing-column",
     "slice-negative",
     "slice-reversed",
     "slice-stepped",
@@ -115,6 +116,9 @@ def lib_opts(opts, env):
     )
 
 
+_CUSTOM_OPS = None
+
+
 def make_request(edit, rel, node, env, leaves, universe, opts, seed_expr, pick, rels, prog):
     """Returns (callable issuing the ill-formed request, tuple of acceptable exception classes, description)."""
     from lsst.daf.relation import ColumnError, ColumnExpression, EngineError, Slice, SortTerm, iteration, sql
@@ -153,6 +157,55 @@ def make_request(edit, rel, node, env, leaves, universe, opts, seed_expr, pick, 
         if cols:
             p = ("and", (("ge", ("ref", some(cols)), ("lit", -9)), p))
         return (lambda: rel.with_rows_satisfying(lib_p(p), **o)), (ColumnError,), f"sel {fmt_p(p)}"
+    if edit == "custom-op-missing-column":
+        # a user-defined operation (extension points RowFilter / Reordering) that declares, through columns_required, "the
+        # columns the target relation must have in order for this operation to be applied to it"
+        if not missing or kind_here != "it" or (o and isinstance(o["preferred_engine"], sql.Engine)):
+            raise Skip()  # (user-defined operations are only implemented by the harness's iteration engines)
+        import dataclasses as _dc
+
+        from lsst.daf.relation import ColumnTag, Reordering, RowFilter
+
+        need = some(missing)
+        global _CUSTOM_OPS
+        if _CUSTOM_OPS is None:
+
+            @_dc.dataclass(frozen=True)
+            class NeedsFilter(RowFilter):
+                tag: ColumnTag
+
+                def __str__(self):
+                    return f"needs[{self.tag}]"
+
+                @property
+                def columns_required(self):
+                    return frozenset({self.tag})
+
+                @property
+                def is_order_dependent(self):
+                    return False
+
+                @property
+                def is_empty_invariant(self):
+                    return False
+
+                def applied_max_rows(self, target):
+                    return target.max_rows
+
+            @_dc.dataclass(frozen=True)
+            class NeedsOrder(Reordering):
+                tag: ColumnTag
+
+                def __str__(self):
+                    return f"orderby[{self.tag}]"
+
+                @property
+                def columns_required(self):
+                    return frozenset({self.tag})
+
+            _CUSTOM_OPS = (NeedsFilter, NeedsOrder)
+        op = _CUSTOM_OPS[pick % 2](need)
+        return (lambda: op.apply(rel, **o)), (ColumnError,), f"user-defined {type(op).__name__} requiring missing {need}"
     if edit == "proj-missing-column":
         if not missing:
             raise Skip()
